@@ -217,7 +217,7 @@ Definition ARMG (ls : lexstate) (s : list ch) (ln : Z) (harmony : bool) (acc : l
                      let t0 := aval_to_i v in
                      let t1 := if t0 <=? 48 then 48 else t0 in
                      let t2 := if t1 >? 32767 then 32767 else t1 in
-                     k (mkLex t2 (lx_logs ls) (lx_vars ls) (lx_rhythm ls)) s2 ln2 harmony acc
+                     k (mkLex t2 (lx_logs ls) (lx_vars ls) (lx_rhythm ls) (lx_ja ls)) s2 ln2 harmony acc
                    else if list_eqb ttype (zs "Rhythm") then
                      let '(s2, ln2) := skip_space s1 ln in
                      let '(block, s3, ln3) := get_token_nest s2 ln2 123 125 in
@@ -293,7 +293,7 @@ Definition ARMG (ls : lexstate) (s : list ch) (ln : Z) (harmony : bool) (acc : l
                  let '(s4, ln4) := skip_space s3 ln2 in
                  let '(body, s5, ln5) := get_token_nest s4 ln4 123 125 in
                  if (64 <=? mc) && (mc <=? 127) then
-                   k (mkLex (lx_timebase ls) (lx_logs ls) (lx_vars ls) ((mc, body) :: lx_rhythm ls)) s5 ln5 harmony acc
+                   k (mkLex (lx_timebase ls) (lx_logs ls) (lx_vars ls) ((mc, body) :: lx_rhythm ls) (lx_ja ls)) s5 ln5 harmony acc
                  else
                    k (lx_add_log ls (zs "[ERROR](" ++ show_int ln5 ++ zs ") could not define Rhythm macro '" ++ [mc] ++ zs "' ")) s5 ln5 harmony acc
              end
@@ -1362,7 +1362,7 @@ Definition ex_B : cprog :=
   [(zs "o5", [LSep 13; LNewline]); (zs "l8", [LSep 59; LSep 59]); (zs "c4,50 ", []); (zs "d|", []); (zs "TR(2)", [LNewline]);
    (zs "[3", [LSep 9]); (zs "e", []); (zs "]", [LSep 32]); (zs "'", []); (zs "c", []); (zs "e", []); (zs "'4 ", []);
    (zs "@5", [LSep 59]); (zs "Sub{c}", [LSep 32; LBlock (zs "x")]); (zs "v100", [LSep 32; LLine (zs " end")]); (zs "r", [])].
-Definition ls00 : lexstate := mkLex 96 [] [] rhythm_rows.
+Definition ls00 : lexstate := mkLex 96 [] [] rhythm_rows false.
 Example ex_texts :
   print_cprog ex_A = zs "o5;l8" ++ [10] ++ zs "c4,50 d" ++ [10] ++ zs "TR(2) [3 e] 'ce'4 @5;Sub{c} v100 r" /\
   print_cprog ex_B = zs "o5" ++ [13; 10] ++ zs "l8;;c4,50 d|TR(2)" ++ [10] ++ zs "[3" ++ [9] ++ zs "e] 'ce'4 @5;Sub{c} /*x*/v100 // end" ++ [10] ++ zs "r".
